@@ -131,6 +131,7 @@ def fault_stages(ctx):
 
 def plan_c09(ctx):
     reload_stages(ctx)
+    reader_stages(ctx)
     fault_stages(ctx)
     aux_refs(ctx)
     other_backend(ctx)
@@ -191,8 +192,14 @@ def aux_refs(ctx):
     ctx.log("aux references: %d entries at IR and module level" % n)
 
 
+def reader_stages(ctx):
+    """the reader on messages nobody here wrote: every single edit of references / containment, then ReadMsg"""
+    sweep_stage(ctx, "read", {"sym", "entry", "parent", "list"}, ("readmsg", "readmsg"))
+
+
 def plan_c02(ctx):
     reload_stages(ctx)
+    reader_stages(ctx)
     other_backend(ctx)
     ctx.exhaustive = False
     ctx.notes["enum_constants_exercised"] = {k: len(v) for k, v in universe.SCHEMA.enums.items()}
